@@ -75,7 +75,8 @@ PARAMS["C05"] = {"rule": "iterator nth / nth_back / last / count / drop from eve
 
 PROPS["C07"] = Prop(
     "C07", ["GA.Props.C07", "GA.Props.BodyCollect"],
-    [Engine("own", scen.own_c07, sig=own_sig, body_view=True)],
+    [Engine("own", scen.own_c07, sig=own_sig, body_view=True),
+     Engine("heap", scen.heap_c07, sig=lambda l: l.split()[0] + "/" + l.split()[3])],
     trusted=[KERNEL, TRANSLATOR, BODYTIE, HARNESS, OWN_TRUST, "modelled, not verified: Vec::with_capacity/extend/Take of alloc and core for the boxed form"],
     assumptions=["the source is modelled as the list of answers its next() calls give plus a size_hint; answers after the first None may be Some again (not fused)",
                  "correspondence covers N in {0..8,16,17,33}; theorems cover every N, every script, every hint"],
@@ -262,6 +263,8 @@ PARAMS["C15"] = {"rule": "try_from_vec (with and without spare capacity), try_fr
 # (properties.jsonl `anchors.files`); C05 ("an intermediate value of any operation") additionally owns C04's.
 # A function that is new in one of these files is code no model covers: the obligation fails and the check widens.
 # ------------------------------------------------------------------------------------------------
+# whole-body fingerprints of src/impl_alloc.rs (GA.Bridge.AllocBodies) for every property anchored there
+ALLOC_BODY_PROPS = ("C03", "C04", "C05", "C07", "C08", "C15", "C16")
 SURFACE_MOD = {"src/lib.rs": "Lib", "src/iter.rs": "Iter", "src/internal.rs": "Internal", "src/impls.rs": "Impls",
                "src/sequence.rs": "Sequence", "src/functional.rs": "Functional", "src/impl_alloc.rs": "ImplAlloc",
                "src/impl_serde.rs": "ImplSerde", "src/impl_zeroize.rs": "ImplZeroize", "src/impl_const_default.rs": "ImplConstDefault",
@@ -283,6 +286,9 @@ def _anchor_files():
 _AF = _anchor_files()
 _AF["C05"] = sorted(set(_AF.get("C05", [])) | set(_AF.get("C04", [])))
 _AF["C01"] = sorted(set(_AF.get("C01", [])) | {"src/impl_zeroize.rs"})
+for _pid in ALLOC_BODY_PROPS:
+    if "GA.Bridge.AllocBodies" not in PROPS[_pid].lean:
+        PROPS[_pid].lean.append("GA.Bridge.AllocBodies")
 for _pid, _pr in PROPS.items():
     for _f in _AF.get(_pid, []):
         _m = "GA.Bridge.Surface." + SURFACE_MOD[_f] if _f in SURFACE_MOD else None
